@@ -52,7 +52,8 @@ theorem probes_pin :
 
 /-- **If the parser accepts a string, CPython formats it** when given arguments of the shape and types the parser
     reports: a tuple with a value of the reported type per entry of `seq_arguments` (an `int` for every `*`), or a mapping
-    with a value of the reported type under every key of `map_arguments`. -/
+    with a value of the reported type under every key of `map_arguments`; or the bare value when exactly one unnamed
+    argument is reported. -/
 theorem accept_formats {s : List Char} {r : Result} {a : Args} (hp : PlainPercent s) (h : parse s = .ok r)
     (hm : Matches r a) : format s a = .ok () := by
   obtain ⟨st, hl, hseq, hmap, _⟩ := parse_loop h
@@ -73,7 +74,13 @@ theorem accept_formats {s : List Char} {r : Result} {a : Args} (hp : PlainPercen
     rw [← hmap] at h1
     obtain ⟨v, hv1, hv2⟩ := m2 k es h1
     exact ⟨v, hv1, hv2 e h2⟩
-  | single v => exact absurd hm (by simp [Matches])
+  | single v =>
+    obtain ⟨m1, e, m2, m3⟩ := hm
+    rw [hmap] at m1
+    have := groups_nil m1
+    rw [hseq] at m2
+    refine loop_single true _ _ _ _ _ hl hp this v false (fun _ => ⟨e, ?_, m3⟩) (fun hh => by cases hh)
+    simpa [St.init] using m2
 
 /-- **Rejection raises only the parser's own error type** (every string, no hypothesis): never an `AssertionError`,
     `IndexError`, `ValueError`, …; `int(ch)` is only applied to one of the ten ASCII digits. -/
@@ -187,6 +194,19 @@ theorem mapping_keys_needed {s : List Char} {r : Result} {m : List (List Char ×
   · cases r
   · exact r
 
+/-- **Why the statement has a domain**: outside it, the model of CPython 3.12 formats nothing — a `%` conversion with a key,
+    flag, width, precision or length attached is an error whatever the arguments … -/
+theorem outside_domain_cpython_rejects {s : List Char} (hp : ¬ PlainPercent s) (a : Args) : format s a ≠ .ok () := by
+  have : plainPercent (s.length + 1) s = false := by
+    unfold PlainPercent at hp; simpa using hp
+  exact run_nonplain _ _ this _
+
+/-- … while the parser accepts such strings and types the conversion as consuming nothing (`%5%`): without the
+    hypothesis `PlainPercent`, `accept_formats` is false. -/
+theorem accept_formats_needs_domain :
+    ∃ s r, parse s = .ok r ∧ r.seq = [] ∧ r.map = [] ∧ ∀ a, format s a ≠ .ok () :=
+  ⟨"%5%".toList, _, rfl, rfl, rfl, fun a => outside_domain_cpython_rejects (by decide) a⟩
+
 /-- **The domain, spelled out**: `PlainPercent s` says that every conversion specification the scanner reads in `s` whose
     conversion character is `%` has no key, no flag, no width, no precision and no length modifier. -/
 theorem plainPercent_spec (s : List Char) :
@@ -270,6 +290,7 @@ example : (parse "%5%".toList).map (·.seq) = .ok [] := by rfl
 example : format "%5%".toList (.tuple []) = .error .notEnoughArgs := by rfl
 example : format "%*.*lu%%".toList (.tuple [.int 7, .int 5]) = .error .notEnoughArgs := by rfl
 example : format "%d".toList (.tuple [.int 7, .int 5]) = .error .notAllConverted := by rfl
+example : format "%5.2f%%".toList (.single .float) = .ok () := by rfl
 example : (parse "%-05.3d".toList).map (·.warnings) = .ok [.RedundantFlag, .RedundantFlag] := by rfl
 example : (parseW false "%-05.3d".toList).map (·.warnings) = .ok [] := by rfl
 example : (directives "a%(k)-5d%%%*s".toList).map (fun d => (d.key.map String.ofList, d.flags, d.width, d.conv)) =
